@@ -855,8 +855,16 @@ def refused_items(r):
     det, models = gen_pipeline(r, True, ["ill_uniform"])
     bad = [(0.0, [0.0, 1.0]), (-1.0, [0.0, 1.0]), (1.0, [1.0, 2.0]), (2.0, [1.0, 3.0]), (0.0, [1.0, 1.0]),
            (0.0, [1.0, 3.0, 2.0]), (0.0, [])]
-    return [dict(type="exp", dy=True, payloads=[exposure_payload(det, models, s, ts, nd)], refused=True)
-            for s, ts in bad for nd in (True,)]
+    out = [dict(type="exp", dy=True, payloads=[exposure_payload(det, models, s, ts, nd)], refused=True)
+           for s, ts in bad for nd in (True,)]
+    # the same through the other ways of establishing a schedule: the `times` setter of Readout does not check
+    # monotonicity - such a schedule must still be refused (by the detector's readout properties) before any model runs
+    via = [(0.0, [1.0, 3.0, 2.0], "set_times"), (0.0, [2.0, 1.0], "set_both"), (0.0, [1.0, 1.0], "set_times"),
+           (0.5, [1.0, 0.75, 2.0], "replace"), (0.0, [2.0, 2.0, 3.0], "replace_times"), (1.0, [3.0, 2.5], "file"),
+           (-1.0, [0.0, 1.0], "file"), (2.0, [1.0, 3.0], "set_start"), (0.0, [1.0, 3.0, 3.0], "set_nd")]
+    out += [dict(type="exp", dy=True, payloads=[exposure_payload(det, models, s, ts, r.random() < 0.5, gen_entry(r), route)],
+                 refused=True) for s, ts, route in via]
+    return out
 
 
 def sched_items(items):
